@@ -75,6 +75,21 @@ fn main() {
             }
         }
     }
+    // (c) mean edge count over seeds vs p x pairs (sparse graphs: a skip often crosses several rows)
+    let mut worst_dev = 0.0f64;
+    for &(nn, p) in &[(100i32, 0.005f64), (40, 0.02), (12, 0.3)] {
+        let runs = 1500u64;
+        let mut tot = 0usize;
+        for seed in 0..runs {
+            if let Ok(Ok(g)) = std::panic::catch_unwind(|| fast_gnp_random_graph(nn, p, directed, Some(seed))) { tot += g.get_all_edges().len(); }
+        }
+        let pairs = if directed { (nn * (nn - 1)) as f64 } else { (nn * (nn - 1)) as f64 / 2.0 };
+        let mean = tot as f64 / runs as f64;
+        let dev = ((mean - p * pairs) / (p * pairs)).abs() - 1.0 / (nn as f64 - 1.0);
+        if dev > worst_dev { worst_dev = dev; }
+        println!("MEAN n={} p={} directed={} mean={:.3} expected={:.3}", nn, p, directed, mean, p * pairs);
+    }
+    println!("MEAN_DEV {:.4}", worst_dev);
     let total: usize = if directed { (n * (n - 1)) as usize } else { (n * (n - 1) / 2) as usize };
     println!("PAIRS_SEEN {} of {} : {:?}", seen.len(), total, seen);
     println!("BAD_PAIRS {}", bad_pairs);
@@ -100,6 +115,8 @@ def replay_gnp(pid, h, r, fails, outdir):
                 reproduced = True; why.append("%s: only %s of %s pairs ever occur over 4500 seeded runs" % (prof, m.group(1), m.group(2)))
             elif ("overflow" in d or "generator succeeds" in d) and pm and int(pm.group(1)) > 0:
                 reproduced = True; why.append("%s: %s panicking calls (%s)" % (prof, pm.group(1), txt.split("first:")[-1].strip()[:80]))
+            elif "slot law" in d and re.search(r'MEAN_DEV ([0-9.]+)', txt) and float(re.search(r'MEAN_DEV ([0-9.]+)', txt).group(1)) > 0.10:
+                reproduced = True; why.append("%s: mean edge count deviates from p x pairs by more than the allowance + 10%% (%s)" % (prof, re.search(r'MEAN_DEV ([0-9.]+)', txt).group(0)))
             elif bm and int(bm.group(1)) > 0 and ("pair in range" in d or "self-loop" in d or "repeated" in d or "lower triangle" in d):
                 reproduced = True; why.append("%s: %s malformed pairs/graphs" % (prof, bm.group(1)))
     path = os.path.join(outdir, h["name"] + ".json")
@@ -108,3 +125,42 @@ def replay_gnp(pid, h, r, fails, outdir):
     with open(os.path.join(outdir, h["name"] + ".rs"), "w") as fh:
         fh.write(main_rs)
     return {"reproduced": reproduced, "path": path, "why": "; ".join(why) or "native sweep found nothing"}
+
+
+LOUVAIN_MAIN = r'''
+use graphrs::{algorithms::community::louvain, Edge, Graph, GraphSpecs};
+use std::collections::BTreeSet;
+fn canon(p: &Vec<Vec<std::collections::HashSet<i32>>>) -> Vec<BTreeSet<BTreeSet<i32>>> {
+    p.iter().map(|lvl| lvl.iter().map(|c| c.iter().cloned().collect()).collect()).collect()
+}
+fn main() {
+    let mut worst = 1usize;
+    for (name, edges, directed) in [("cycle4", vec![(0,1),(1,2),(2,3),(3,0)], false), ("cycle6", vec![(0,1),(1,2),(2,3),(3,4),(4,5),(5,0)], false),
+        ("k33", vec![(0,3),(0,4),(0,5),(1,3),(1,4),(1,5),(2,3),(2,4),(2,5)], false), ("dcycle4", vec![(0,1),(1,2),(2,3),(3,0),(1,0),(2,1),(3,2),(0,3)], true)] {
+        let es: Vec<_> = edges.iter().map(|(a,b)| Edge::with_weight(*a, *b, 1.0)).collect();
+        let specs = if directed { GraphSpecs::directed_create_missing() } else { GraphSpecs::undirected_create_missing() };
+        let g: Graph<i32, ()> = Graph::new_from_nodes_and_edges(vec![], es, specs).unwrap();
+        for seed in [1u64, 7, 42] {
+            let mut seen = BTreeSet::new();
+            for _ in 0..200 {
+                let p = louvain::louvain_partitions(&g, false, None, None, Some(seed)).unwrap();
+                seen.insert(canon(&p));
+            }
+            if seen.len() > worst { worst = seen.len(); println!("{} seed {}: {} distinct results over 200 calls", name, seed, seen.len()); }
+        }
+    }
+    println!("MAX_DISTINCT {}", worst);
+}
+'''
+
+def replay_louvain(pid, h, r, fails, outdir):
+    res = run_program("c17", LOUVAIN_MAIN, profiles=("release",))
+    import re
+    m = re.search(r'MAX_DISTINCT (\d+)', res["release"]["out"])
+    reproduced = bool(m and int(m.group(1)) > 1)
+    path = os.path.join(outdir, h["name"] + ".json")
+    json.dump({"property": pid, "harness": h["name"], "failed_checks": fails[:5], "native_program": "repeated seeded louvain_partitions calls on tie graphs in one process (vlib/native.py LOUVAIN_MAIN)",
+               "native": res, "reproduced": reproduced}, open(path, "w"), indent=1)
+    with open(os.path.join(outdir, h["name"] + ".rs"), "w") as fh:
+        fh.write(LOUVAIN_MAIN)
+    return {"reproduced": reproduced, "path": path, "why": "seeded louvain_partitions returned %s distinct results" % (m.group(1) if m else "?")}
